@@ -97,7 +97,7 @@ def setup_steps(cfg):
 
 
 def var_bytes_needed(cfg):
-    n = sum(M.scalar_record(nm) for nm in cfg['scalars']) + M.scalar_record('N%')
+    n = sum(M.scalar_record(nm) for nm in cfg['scalars']) + M.scalar_record('N%') + M.scalar_record('K%')
     n += M.array_record('P$', (cfg['pbound'],)) + M.array_record('E$', (cfg['ebound'],))
     n += sum(M.scalar_record(fn[0][2:]) for fn in cfg['fns'])
     return n
@@ -155,8 +155,9 @@ class Run(object):
             if self.h.err_of(out)[0]:
                 raise Failure('setup:clear-rejected', 'CLEAR ,%d -> %r' % (n, out), -1)
         self.mem.f0 = self._number(b'PRINT FRE("")', -1)[0]
-        self._ex(b'N%=0', -1)
+        self._ex(b'N%=0:K%=0', -1)
         self.mem.ints['N%'] = 0
+        self.mem.ints['K%'] = 0      # parameter variable of the functions with a numeric parameter
         self.mem.f0_after_n = self.mem.free()
 
     # -- one step -----------------------------------------------------------------------------
@@ -313,11 +314,12 @@ class Run(object):
             for nm in list(before[1]):
                 if nm not in want_a and self.box.get(nm + '()') != []:
                     raise Failure('erase:array-still-there', '%s: %s() still exists' % (where, nm), index)
-            if 'N%' in mem.ints:
-                got = self.box.get('N%')
-                if got != mem.ints['N%']:
-                    raise Failure('value:numeric-result-differs-after:%s%s' % (stmt[0], suffix),
-                                  '%s: N%% = %r, reference %r' % (where, got, mem.ints['N%']), index)
+            for nm, want in mem.ints.items():
+                got = self.box.get(nm)
+                if got != want:
+                    raise Failure('value:numeric-%s-differs-after:%s%s' % (
+                        'result' if nm == 'N%' else 'parameter-variable', stmt[0], suffix),
+                                  '%s: %s = %r, reference %r' % (where, nm, got, want), index)
         except h.Internal as e:
             raise Failure(e.key, '%s: %s while reading the variables back' % (where, str(e)[:300]), index)
 
@@ -411,6 +413,27 @@ def rand_cfg(rng):
                 cfg['fns'].append(('FNI$', ['X$'], X))     # body is the bare parameter
             else:
                 cfg['fns'].append(('FNI$', ['X$'], ('cat', X, rng.choice([X, ('lit', b'!'), ('var', 'B$')]))))
+    # functions of the other signatures: numeric parameter, no parameter, numeric result, nested
+    K, A, B = ('nvar', 'K%'), ('var', 'A$'), ('var', 'B$')
+    small = rng.randint(1, min(40, maxlen))
+    have = set()
+    if rng.random() < 0.5:
+        cfg['fns'].append(('FNS$', ['K%'], rng.choice([('string', K, rng.randrange(256)),
+                                                       ('cat', ('string', K, 65), A), ('left', ('cat', A, B), K)])))
+        have.add('FNS$')
+    if rng.random() < 0.5:
+        cfg['fns'].append(('FNQ!', ['K%'], rng.choice([('nmul', K, 2), ('nadd', K, 1), ('nlen', ('string', K, 66))])))
+        have.add('FNQ!')
+    if rng.random() < 0.4:
+        cfg['fns'].append(('FNZ$', [], rng.choice([('cat', A, ('lit', b'z')), ('left', ('cat', B, A), small)])))
+        have.add('FNZ$')
+    if rng.random() < 0.4:
+        cfg['fns'].append(('FNL%', ['X$'], rng.choice([('nadd', ('nlen', X), 1), ('ninstr', X, ('lit', b'a')), ('nasc', X)])))
+    if have and rng.random() < 0.5:
+        if 'FNS$' in have and 'FNQ!' in have:
+            cfg['fns'].append(('FNN$', ['K%'], ('fn', 'FNS$', [('nfn', 'FNQ!', [K])])))
+        elif 'FNZ$' in have:
+            cfg['fns'].append(('FNN$', ['K%'], ('cat', ('fn', 'FNZ$', []), ('str', K))))
     gen = Generator(rng, cfg)
     for _ in range(rng.choice((0, 4, 8, 14))):
         cfg['stored'].append(gen.statement(None))
@@ -442,6 +465,36 @@ class Generator(object):
             return rng.randint(0, m)
         return rng.choice((m, 255, 254, 1, 0))
 
+    def call(self, mem, depth, want='$'):
+        """A call of one of the history's functions with the wanted result type (None if there is none)."""
+        rng = self.rng
+        fns = [f for f in self.cfg['fns'] if (f[0][-1] == '$') == (want == '$')]
+        if not fns:
+            return None
+        name, params, _ = rng.choice(fns)
+        args = [self.expr(mem, depth + 2) if p[-1] == '$' else self.num(mem, depth + 2, small=True) for p in params]
+        return ('fn' if want == '$' else 'nfn', name, args)
+
+    def num(self, mem, depth=0, small=False):
+        """Numeric argument: mostly a constant, sometimes a numeric expression (function call, LEN, INSTR, comparison)."""
+        rng = self.rng
+        const = rng.randint(0, min(self.cfg['maxlen'], 30)) if small else self.length()
+        if depth >= 3 or rng.random() < 0.7:
+            return const
+        q = rng.random()
+        if q < 0.45:
+            c = self.call(mem, depth, want='n')
+            if c is not None:
+                return c
+        if q < 0.7:
+            return ('nlen', self.expr(mem, depth + 1))
+        if q < 0.8:
+            return ('nadd', ('ninstr', self.expr(mem, depth + 1), self.expr(mem, depth + 2)), rng.randint(0, 3))
+        if q < 0.9:
+            return ('nmul', ('ncmp', rng.choice(('<', '=', '>', '<>', '<=', '>=')), self.expr(mem, depth + 1), self.expr(mem, depth + 1)),
+                    -rng.randint(0, 9))
+        return ('nasc', self.expr(mem, depth + 2))
+
     def expr(self, mem, depth=0):
         rng = self.rng
         r = rng.random()
@@ -458,17 +511,25 @@ class Generator(object):
                 return ('space', self.length())
             return ('chr', rng.randrange(256))
         if r < 0.62:
-            return ('cat', self.expr(mem, depth + 1), self.expr(mem, depth + 1))
+            left = self.expr(mem, depth + 1)
+            if rng.random() < 0.3:
+                # pending temporaries on the left, a nested evaluation on the right
+                c = self.call(mem, depth, want='$') if rng.random() < 0.6 else None
+                if c is None:
+                    c = ('str', self.num(mem, depth + 1, small=True)) if rng.random() < 0.5 else ('chr', ('nadd', ('nasc', self.expr(mem, depth + 2)), 0))
+                return ('cat', left, c)
+            return ('cat', left, self.expr(mem, depth + 1))
         if r < 0.72:
-            return ('left', self.expr(mem, depth + 1), self.length())
+            return ('left', self.expr(mem, depth + 1), self.num(mem, depth + 1))
         if r < 0.80:
-            return ('right', self.expr(mem, depth + 1), self.length())
-        if r < 0.88:
-            return ('mid', self.expr(mem, depth + 1), rng.randint(1, 12), self.length())
-        fns = self.cfg['fns']
-        if fns:
-            name, params, _ = rng.choice(fns)
-            return ('fn', name, [self.expr(mem, depth + 2) for _ in params])
+            return ('right', self.expr(mem, depth + 1), self.num(mem, depth + 1))
+        if r < 0.86:
+            return ('mid', self.expr(mem, depth + 1), rng.randint(1, 12), self.num(mem, depth + 1))
+        if r < 0.89:
+            return ('str', self.num(mem, depth + 1, small=True))
+        c = self.call(mem, depth, want='$')
+        if c is not None:
+            return c
         return ('cat', self.expr(mem, depth + 1), self.target(mem))
 
     def statement(self, mem):
@@ -498,9 +559,14 @@ class Generator(object):
         if r < 0.74:
             return ('swap', self.target(mem), self.target(mem))
         if r < 0.80:
-            if rng.random() < 0.65:
+            q = rng.random()
+            if q < 0.4:
                 return ('instr', self.expr(mem, 1), self.expr(mem, 2))
-            return ('len', self.expr(mem, 1))
+            if q < 0.6:
+                return ('len', self.expr(mem, 1))
+            if q < 0.85:
+                return ('ncalc', ('ncmp', rng.choice(('<', '=', '>', '<>', '<=', '>=')), self.expr(mem, 1), self.expr(mem, 1)))
+            return ('ncalc', self.num(mem, 0, small=True) if rng.random() < 0.5 else ('nadd', ('nlen', self.expr(mem, 1)), self.num(mem, 1, small=True)))
         if r < 0.85:
             return ('fre_s',)
         if r < 0.87:
@@ -606,6 +672,28 @@ def directed_scenarios():
              ('d', ('let', Y, A)), ('d', ('let', ('elem', 'P$', 3), ('elem', 'P$', 2))), ('d', ('fre_both',)),
              ('d', ('midset', ('elem', 'P$', 3), 1, 1, ('lit', b'#'))), ('d', ('fre_s',)), ('g', 0), ('g', 3), ('d', ('fre_s',))]
     out.append(('program-text-strings:copy-swap-modify', cfg, steps))
+    # pending temporaries on the left of a nested evaluation: functions of every signature, STR$/CHR$ chains, comparisons
+    K = ('nvar', 'K%')
+    fns = [('FNS$', ['K%'], ('string', K, 65)), ('FNQ!', ['K%'], ('nmul', K, 2)), ('FNZ$', [], ('cat', A, ('lit', b'z'))),
+           ('FNL%', ['X$'], ('nadd', ('nlen', X), 1)), ('FNN$', ['K%'], ('fn', 'FNS$', [('nfn', 'FNQ!', [K])])),
+           ('FNC$', ['X$', 'Y$'], ('cat', X, Y))]
+    for budget in (400, 60):
+        cfg = dict(base, budget=budget, fns=fns, stored=[('let', X, ('cat', ('cat', B, A), ('fn', 'FNS$', [3]))),
+                                                        ('ncalc', ('ncmp', '<', ('cat', B, A), ('fn', 'FNN$', [2])))])
+        q3 = ('nfn', 'FNQ!', [3])
+        steps = [('d', ('let', A, ('cat', ('lit', b'ab'), ('lit', b'c')))), ('d', ('let', B, ('cat', ('lit', b'x'), ('lit', b'y')))),
+                 ('d', ('let', X, ('cat', ('cat', B, A), ('fn', 'FNS$', [3])))),
+                 ('d', ('let', Y, ('cat', ('cat', B, A), ('str', q3)))),
+                 ('d', ('let', ('elem', 'P$', 1), ('cat', ('cat', ('lit', b'p'), B), ('fn', 'FNZ$', [])))),
+                 ('d', ('ncalc', ('ncmp', '<', ('cat', B, A), ('fn', 'FNN$', [2])))),
+                 ('d', ('ncalc', ('ncmp', '=', ('cat', ('cat', B, A), ('fn', 'FNS$', [2])), ('cat', ('cat', B, A), ('string', 2, 65))))),
+                 ('d', ('let', ('elem', 'P$', 2), ('cat', ('cat', ('chr', 65), ('chr', ('nfn', 'FNQ!', [33]))), ('str', ('nfn', 'FNL%', [('cat', B, A)]))))),
+                 ('d', ('let', ('elem', 'P$', 3), ('cat', ('left', ('cat', A, B), q3), ('fn', 'FNC$', [('fn', 'FNZ$', []), ('fn', 'FNN$', [1])])))),
+                 ('d', ('instr', ('cat', ('cat', A, B), ('fn', 'FNS$', [2])), ('cat', ('lit', b'y'), ('fn', 'FNS$', [1])))),
+                 ('d', ('len', ('cat', ('cat', B, ('str', q3)), ('fn', 'FNN$', [3])))),
+                 ('g', 0), ('g', 1), ('d', ('lset', X, ('cat', ('cat', A, ('lit', b'-')), ('fn', 'FNZ$', [])))),
+                 ('d', ('midset', X, 2, 4, ('cat', ('cat', B, ('lit', b'+')), ('str', ('nfn', 'FNL%', [B]))))), ('d', ('fre_both',))]
+        out.append(('pending-temporaries-left-of-nested-evaluation:%d' % budget, cfg, steps))
     # MID$ statement on a target in the program text: the copy into string space collects while the source is a temporary
     for garbage in (44, 50, 56):
         cfg = dict(base, budget=90, stored=[('let', A, ('lit', b'0123456789012345678901234567890123456789'))])
